@@ -13,6 +13,18 @@ Executable contract on the REAL armi functions (nothing copied from them):
             class pair (db.params.hierarchy); the same objects as children of the smallest test reactor through
             Database.writeToDB -> file in a temporary directory -> Database.load (db.load).
 
+  layout    (part of every clause above) the property speaks about values and shapes, not about how an array happens to lie
+            in memory: an array-valued entry that is NOT C-contiguous - Fortran-ordered, a transposed / axes-permuted view
+            (table.T), a strided cut of a larger array, negative strides, a block of columns, a broadcast (zero-stride,
+            read-only) view - is written and read back exactly like its C-contiguous twin.  Such entries (spec
+            ["v", layout, dtype, nested content], see LAYOUT_DOC) go through every path: fixed-shape (typed array), fixed
+            shape with unset objects (None rows), ragged / JaggedArray with and without None, 1-d / 2-d / 3-d, float / int /
+            bool, pack/unpackSpecialData through HDF5 and Database._writeParams/_readParams, the parent/child pair and
+            writeToDB/load; the typed array handed to packSpecialData is also handed over Fortran-ordered and with negative
+            strides (forms typed-fortran / typed-reversed).  The expected side is a fresh C-contiguous array made from the JSON
+            content alone; the comparison is element by element in LOGICAL order (first index slowest).  Also: 0-d arrays
+            (must round-trip as scalars or be rejected at write time), axes of length 1 ((1,3) (3,1) (1,1) (2,1,2) (1,)).
+
 Oracle (property statement, independent of the encoder): the read-back collection has the same length and, entry by
 entry, the same value, shape (own recursive walk, not numpy), numeric kind (bool / int / float / str) and None
 positions.  Tolerated differences - ONLY the documented normalisations:
@@ -48,9 +60,19 @@ that mixes kinds or dtypes (decided from the input alone), so that a mixed-kind 
   read-error             the write was accepted, reading raises (current tree: only pack.mixed.read-error - a direct pack
                          call on an object array WITHOUT None that holds a Flags object: stored via int(Flags), no
                          "nones" attribute, unpackSpecialData refuses it)
-  shape, silent-change, entries-dropped   anything else of that nature (nothing on the current tree)
+  elements-permuted.<layout>  an array entry came back with the same shape and exactly the same scalars at OTHER positions
+                         (e.g. [[1,4],[2,5],[3,6]] -> [[1,2],[3,4],[5,6]]): the encoder walked the entry in memory / column
+                         order instead of logical order.  <layout> names the memory layout of the entry that failed:
+                         layout-F, layout-T, layout-axes-permuted, layout-strided, layout-F-strided, layout-col, layout-neg,
+                         layout-neg-first, layout-neg-last, layout-bcast (see LAYOUT_DOC), or `contiguous` for an ordinary
+                         C-contiguous array / list (nothing on the current tree)
+  shape, silent-change, entries-dropped   anything else of that nature (nothing on the current tree); shape / silent-change /
+                         read-error carry the suffix .layout-<layout> when the failing entry is one of the layout specs (junk
+                         from the gaps of a strided view would be silent-change.layout-strided), and pack.* ids carry
+                         .typed-fortran / .typed-reversed when only the re-laid-out typed array fails
 Further ids: nonsense.values, nonsense.roundtrip (raises, or any other difference); jagged.offsets / .length / .shapes / .nones; jagged.roundtrip
-(raises); db.params.hierarchy; db.load; attrs.spill-roundtrip.
+(raises) (these three [.layout-<layout>] likewise); db.params.hierarchy; db.load (for the layout parameters of LAYOUT_PARAMS:
+db.params.hierarchy.<class> / db.load.<class>, e.g. db.load.elements-permuted.layout-T); attrs.spill-roundtrip.
 Only the smallest failing input of each id is reported (fewest entries, then shortest JSON, then alphabetical - fixed for
 a tier, independent of --seed except for the seeded 3-kind mixes of the thorough tier); the number of failing inputs
 per id is in `violation_counts`, and `reachable_through_writeParams` says for every pack.* id whether the same class also
@@ -89,12 +111,18 @@ B = Bounded(
     "values, every value in every position) and mixed (every pair of 23 / 36 representative kinds, alternating; thorough adds "
     "20000 seeded random 3-kind mixes), each "
     "combined with EVERY None-position pattern; each collection is evaluated by the pack, nonsense, jagged and db.params "
-    "clauses that apply to it; distinct = distinct (clause, form, collection)",
+    "clauses that apply to it; array entries also as NON-C-CONTIGUOUS arrays (Fortran order, transposed / axes-permuted views, "
+    "strided cuts, negative strides, column blocks, broadcast views), as 0-d arrays and with axes of length 1, compared with "
+    "their C-contiguous twin element by element in logical order; distinct = distinct (clause, form, collection)",
     "entries in {None, python int incl. int8..uint64 extremes, numpy int8..uint64 min/max/sentinel, float incl. +-inf/nan/denormal, "
     "float32/64 scalars, bool, str ascii/unicode/empty, 1-d/2-d arrays (float/int/uint/bool/str; equal and differing shapes), "
-    "nested lists equal/ragged/inner-ragged, tuples, empty list/array, dict[str,float], Flags}; collection length <= 4 quick, "
+    "nested lists equal/ragged/inner-ragged, tuples, empty list/array, dict[str,float], Flags, "
+    "1-d/2-d/3-d float/int/bool arrays in 10 memory layouts (F, T, axes-permuted, strided, F-strided, col, neg, neg-first, neg-last, "
+    "bcast; equal and differing shapes; also the typed array itself Fortran-ordered / negative-strided), 0-d arrays, unit axes}; "
+    "collection length <= 4 quick, "
     "<= 6 thorough; all 2^n None patterns; plus one 9000-entry ragged collection (72 KB attributes), one parameter of each "
-    "kind on a parent/child class pair, and the same through writeToDB/load of the smallest test reactor",
+    "kind (incl. 4 parameters of non-contiguous arrays: equal shapes, ragged+None, None rows, 3-d) on a parent/child class pair, "
+    "and the same through writeToDB/load of the smallest test reactor",
 )
 N_HOMO = 6 if B.thorough() else 4
 N_MIX = 6 if B.thorough() else 4
@@ -132,6 +160,8 @@ def build(spec):
     if t == "a":
         a = np.array(_dec(spec[2]), dtype=spec[1])
         return a.reshape(spec[3]) if len(spec) > 3 else a
+    if t == "v":
+        return build_view(spec[1], spec[2], spec[3])
     if t == "l":
         return _dec(spec[1])
     if t == "t":
@@ -146,6 +176,89 @@ def build(spec):
             f = f | Flags[n]
         return f
     raise ValueError(spec)
+
+
+# ---- arrays whose MEMORY layout differs from their logical (row-major) content --------------------------------------
+# ["v", layout, dtype, nested]: an ndarray whose logical content - what indexing, iteration, tolist() and == see - is the
+# nested list `nested` (dtype `dtype`), laid out in memory as `layout` says.  The property speaks about values and
+# shapes, never about layouts: every such array must be written and read back exactly like its C-contiguous twin.
+LAYOUT_DOC = {
+    "C": "C-contiguous array that owns its data (the twin every other layout is compared with)",
+    "F": "Fortran (column-major) array that owns its data: np.array(x, order='F')",
+    "T": "reversed-axes VIEW of a C-contiguous array, like table.T (column-major memory, does not own its data)",
+    "perm": "axes-permuted view of a C-contiguous array: permNNN = x.transpose(NNN) undone logically (neither C nor F for 3-d)",
+    "strided": "every second element along every axis of a larger array filled with junk: big[1::2, 1::2]",
+    "F-strided": "the same cut out of a larger Fortran-ordered array",
+    "col": "a block of columns of a wider C array: big[:, 1:1+n] (rows contiguous, gaps between rows)",
+    "neg": "negative strides along every axis: x[::-1, ::-1] of the reversed copy",
+    "neg-first": "negative stride along the first axis only",
+    "neg-last": "negative stride along the last axis only",
+    "bcast": "zero strides, read-only: np.broadcast_to(row, shape) (all rows equal)",
+}
+LAYOUTS_HIT = {}
+
+
+def _junk(dtype):
+    k = np.dtype(dtype).kind
+    return {"f": -777.25, "i": -77, "u": 77, "b": True}.get(k, "JUNK" if k in "US" else None)
+
+
+def build_view(layout, dtype, nested):
+    base = np.array(_dec(nested), dtype=dtype)  # the logical content
+    nd = base.ndim
+    if layout == "C" or nd == 0:
+        a = base
+    elif layout == "F":
+        a = np.array(base, order="F")
+    elif layout == "T":
+        a = np.ascontiguousarray(base.T).T
+    elif layout.startswith("perm"):
+        perm = tuple(int(c) for c in layout[4:])
+        assert sorted(perm) == list(range(nd)), layout
+        inv = tuple(perm.index(i) for i in range(nd))
+        a = np.ascontiguousarray(base.transpose(perm)).transpose(inv)
+    elif layout in ("strided", "F-strided"):
+        big = np.full(tuple(2 * n + 1 for n in base.shape), _junk(dtype), dtype=base.dtype, order="F" if layout[0] == "F" else "C")
+        sl = (slice(1, None, 2),) * nd
+        big[sl] = base
+        a = big[sl]
+    elif layout == "col":
+        big = np.full(base.shape[:-1] + (base.shape[-1] + 2,), _junk(dtype), dtype=base.dtype)
+        big[..., 1:-1] = base
+        a = big[..., 1:-1]
+    elif layout in ("neg", "neg-first", "neg-last"):
+        rev = slice(None, None, -1)
+        sl = {"neg": (rev,) * nd, "neg-first": (rev,), "neg-last": (Ellipsis, rev)}[layout]
+        a = np.ascontiguousarray(base[sl])[sl]
+    elif layout == "bcast":
+        a = np.broadcast_to(base[0], base.shape)
+    else:
+        raise ValueError("unknown layout %r" % (layout,))
+    # self-check of the generator (a failure here is a bug of this script, not a violation): same logical content, element
+    # by element THROUGH INDEXING, same shape and dtype
+    assert a.shape == base.shape and a.dtype == base.dtype, (layout, a.shape, base.shape)
+    for idx in np.ndindex(*base.shape):
+        x, y = a[idx], base[idx]
+        assert x == y or (x != x and y != y), (layout, idx, x, y)
+    tag = layout if not layout.startswith("perm") else "perm"
+    fl = a.flags
+    hit(LAYOUTS_HIT, "%s: %s" % (tag, "C+F-contiguous" if fl.c_contiguous and fl.f_contiguous else ("C-contiguous" if fl.c_contiguous else ("F-contiguous" if fl.f_contiguous else "non-contiguous"))))
+    return a
+
+
+def twin(spec, entry):
+    """The expected side of a comparison: for a layout spec a FRESH C-contiguous array made from the JSON content alone (no
+    view, no layout involved); any other entry stands for itself."""
+    if spec is not None and spec[0] == "v":
+        return np.array(_dec(spec[3]), dtype=spec[2])
+    return entry
+
+
+def layout_suffix(spec, always=False):
+    """Circumstance part of an id: the memory layout of the entry at which the comparison failed."""
+    if spec is not None and spec[0] == "v":
+        return ".layout-" + ("axes-permuted" if spec[1].startswith("perm") else spec[1])
+    return ".contiguous" if always else ""
 
 
 def II(dt):
@@ -201,13 +314,83 @@ KINDS["dict"] = [["d", {"a": 1.0}], ["d", {"b": 2.0, "a": -1.5}], ["d", {}], ["d
 KINDS["dict-nan"] = [["d", {"a": "nan", "b": 1.0}], ["d", {"b": 2.0}]]
 KINDS["dict+dict-not-float"] = [["D", {"a": None}], ["d", {"a": 1.0}]]
 KINDS["flags"] = [["F", ["FUEL"]], ["F", ["FUEL", "INNER"]], ["F", []], ["F", ["A", "B", "CONTROL", "MOVEABLE"]]]
+# ---- memory layouts (see LAYOUT_DOC): the same values and shapes as above, but not C-contiguous ----
+KINDS["arr2f-layouts-ragged"] = [
+    ["v", "T", "float64", [[1.0, 4.0], [2.0, 5.0], [3.0, 6.0]]],
+    ["v", "F", "float64", [[10.0, 20.0], [30.0, 40.0]]],
+    ["v", "strided", "float64", [[7.0, 8.0, 9.0], [1.5, 2.5, 3.5]]],
+    ["v", "neg", "float64", [[1.0, 2.0, 3.0], [4.0, 5.0, 6.0], [7.0, 8.0, 9.0]]],
+    ["v", "col", "float64", [[1.0, 2.0], [3.0, 4.0], [5.0, 6.0], [7.0, 8.0]]],
+    ["v", "F-strided", "float64", [[0.5, "inf", -2.0]]],
+]
+KINDS["arr2f-layouts-equal"] = [
+    ["v", "T", "float64", [[1.0, 2.0, 3.0], [4.0, 5.0, 6.0]]],
+    ["v", "F", "float64", [[7.0, 8.0, 9.0], [10.0, 11.0, 12.0]]],
+    ["v", "strided", "float64", [[-1.0, -2.0, -3.0], [-4.0, -5.0, -6.0]]],
+    ["v", "neg", "float64", [[0.5, 1.5, 2.5], [3.5, 4.5, 5.5]]],
+    ["v", "col", "float64", [[13.0, 14.0, 15.0], [16.0, 17.0, 18.0]]],
+    ["v", "bcast", "float64", [[21.0, 22.0, 23.0], [21.0, 22.0, 23.0]]],
+]
+KINDS["arr2i-layouts-ragged"] = [
+    ["v", "T", "int64", [[1, 2], [3, 4], [5, 6]]],
+    ["v", "F", "int64", [[7, 8, 9], [10, 11, 12]]],
+    ["v", "neg-last", "int64", [[13, 14], [15, 16]]],
+    ["v", "neg-first", "int64", [[17, 18, 19, 20], [21, 22, 23, 24]]],
+    ["v", "strided", "int64", [[25, 26, 27]]],
+]
+KINDS["arr2i-layouts-equal"] = [
+    ["v", "T", "int64", [[1, 2], [3, 4], [5, 6]]],
+    ["v", "F", "int64", [[7, 8], [9, 10], [11, 12]]],
+    ["v", "neg", "int64", [[13, 14], [15, 16], [17, 18]]],
+    ["v", "F-strided", "int64", [[19, 20], [21, 22], [23, 24]]],
+]
+KINDS["arr3f-layouts"] = [
+    ["v", "perm201", "float64", [[[1.0, 2.0], [3.0, 4.0], [5.0, 6.0]], [[7.0, 8.0], [9.0, 10.0], [11.0, 12.0]]]],
+    ["v", "perm102", "float64", [[[1.0, 2.0, 3.0], [4.0, 5.0, 6.0]], [[7.0, 8.0, 9.0], [10.0, 11.0, 12.0]]]],
+    ["v", "T", "float64", [[[1.0, 2.0], [3.0, 4.0]], [[5.0, 6.0], [7.0, 8.0]]]],
+    ["v", "F", "float64", [[[1.0, 2.0], [3.0, 4.0], [5.0, 6.0]]]],
+    ["v", "perm021", "float64", [[[1.0, 2.0], [3.0, 4.0], [5.0, 6.0]], [[7.0, 8.0], [9.0, 10.0], [11.0, 12.0]]]],
+]
+KINDS["arr1-layouts"] = [
+    ["v", "strided", "float64", [1.0, 2.0, 3.0]],
+    ["v", "neg", "float64", [4.0, 5.0]],
+    ["v", "strided", "float64", [6.0]],
+    ["v", "neg", "float64", [7.0, 8.0, 9.0]],
+    ["v", "bcast", "float64", [2.5, 2.5]],
+]
+KINDS["arr1i-layouts-equal"] = [["v", "strided", "int64", [1, 2, 3]], ["v", "neg", "int64", [4, 5, 6]], ["v", "C", "int64", [7, 8, 9]]]
+KINDS["arr2b-layouts"] = [
+    ["v", "T", "bool", [[True, False], [False, False], [True, True]]],
+    ["v", "F", "bool", [[True, False], [False, True]]],
+    ["v", "neg", "bool", [[False, True, True], [False, False, True]]],
+]
+# ---- 0-d arrays and axes of length 1 ----
+KINDS["arr-0d"] = [["a", "float64", 2.5], ["a", "float64", -1.0], ["a", "float64", "inf"]]
+KINDS["arr-0d-int"] = [["a", "int64", 3], ["a", "int64", -4]]
+KINDS["arr-0d+1d"] = [["a", "float64", 2.5], ["a", "float64", [1.0, 2.0]], ["a", "float64", [3.0]]]
+KINDS["arr-unit-axis"] = [
+    ["a", "float64", [[1.0, 2.0, 3.0]]],
+    ["a", "float64", [[4.0], [5.0], [6.0]]],
+    ["a", "float64", [[7.0]]],
+    ["v", "T", "float64", [[8.0], [9.0]]],
+    ["v", "F", "float64", [[1.5, 2.5]]],
+]
+KINDS["arr-unit-axis-equal"] = [["a", "float64", [[1.0, 2.0, 3.0]]], ["v", "T", "float64", [[4.0, 5.0, 6.0]]], ["a", "float64", [[7.0, 8.0, 9.0]]]]
+KINDS["arr3-unit-axis"] = [
+    ["a", "float64", [[[1.0, 2.0]], [[3.0, 4.0]]]],
+    ["a", "float64", [[[5.0], [6.0]]]],
+    ["a", "float64", [[[7.0]]]],
+    ["v", "perm201", "float64", [[[1.0, 2.0, 3.0]], [[4.0, 5.0, 6.0]]]],
+]
+KINDS["arr1-len1"] = [["a", "float64", [1.0]], ["a", "float64", [2.0]], ["v", "neg", "float64", [3.0]]]
 # one representative per region of the encoder's decision space, for the mixed-kind collections
 MIX_KINDS = ["pyint", "pyint-extreme", "np-int8", "np-uint8", "np-uint64", "float", "float-nan", "np-float32", "bool", "str",
              "arr1f-equal", "arr1f-ragged", "arr1i-equal", "arr2f-equal", "arr2-ragged", "list-equal", "list-ragged", "tuple",
-             "empty", "dict", "flags", "arr1f-nan", "arr-str"]
+             "empty", "dict", "flags", "arr1f-nan", "arr-str", "arr2f-layouts-ragged"]
 if B.thorough():
     MIX_KINDS += ["np-int64", "np-uint16", "np-float64", "np-bool", "str-unicode", "arr1u8", "arr-bool", "list2-equal",
-                  "list-inner-ragged", "dict-nan", "sentinel-int8", "sentinel-uint8", "arr-zero-width"]
+                  "list-inner-ragged", "dict-nan", "sentinel-int8", "sentinel-uint8", "arr-zero-width",
+                  "arr2f-layouts-equal", "arr2i-layouts-ragged", "arr3f-layouts", "arr1-layouts", "arr-0d", "arr-unit-axis"]
 
 
 def collections():
@@ -281,11 +464,21 @@ def isnan(x):
 
 
 def leaves(x):
+    """The scalars of an entry in LOGICAL order (first index slowest), whatever the memory layout: tolist() nests by index."""
     if is_seq(x):
         if isinstance(x, np.ndarray) and x.dtype != object:
-            return x.ravel().tolist()
+            return leaves(x.tolist()) if x.ndim > 1 else x.tolist()
         return [lf for c in children(x) for lf in leaves(c)]
     return [native(x)]
+
+
+def permuted(le, la):
+    """Same scalars (kind and value), another order."""
+    def key(x):
+        x = native(x)
+        return (kind(x), repr(x))
+
+    return len(le) == len(la) and len(le) > 1 and sorted(map(key, le)) == sorted(map(key, la))
 
 
 def sig(x):
@@ -401,6 +594,8 @@ def entry_cmp(e, a):
         r = worst([leaf_cmp(x, y) for x, y in zip(le, la)])
         if sig(e) != sig(a) and RANK[r[0]] < RANK["shape"]:
             return ("shape", "shape.inner-ragged-flattened" if own_shape(e) is None and own_shape(a) == (len(le),) else "shape")
+        if r[0] in ("none", "value") and permuted(le, la):
+            return ("value", "elements-permuted")  # every scalar of the entry is there, at another position
         return r
     # scalar or None expected
     if is_seq(a):
@@ -483,7 +678,19 @@ def classify(expected, i, e, r):
     return detail
 
 
-def compare(expected, actual):
+LAYOUT_CLASSES = ("elements-permuted", "silent-change", "shape", "read-error")
+
+
+def with_layout(cls, spec):
+    """<class>[.layout-<memory layout of the entry that failed>]: elements-permuted always names the layout (.contiguous for an
+    ordinary array / list); silent-change, shape and read-error only when the entry is one of the layout specs (so the ids of
+    ordinary inputs stay what they were)."""
+    if cls in LAYOUT_CLASSES:
+        return cls + layout_suffix(spec, always=cls == "elements-permuted")
+    return cls
+
+
+def compare(expected, actual, specs=None):
     """Return {failure class: first index}; empty = equal up to the documented normalisations."""
     out = {}
     if len(expected) != len(actual):
@@ -491,16 +698,31 @@ def compare(expected, actual):
     for i, (e, a) in enumerate(zip(expected, actual)):
         r = entry_cmp(e, a)
         if r[0] != "ok":
-            out.setdefault(classify(expected, i, e, r), i)
+            cls = classify(expected, i, e, r)
+            out.setdefault(with_layout(cls, specs[i] if specs is not None and i < len(specs) else None), i)
     return out
 
 
+def first_layout_spec(specs):
+    """For failures of a whole collection (reading raises): the first entry that is not an ordinary contiguous array."""
+    for sp in specs:
+        if sp is not None and sp[0] == "v" and sp[1] != "C":
+            return sp
+    return None
+
+
 def spec_kind(s):
+    if s[0] == "v":
+        return "a:" + s[2]  # an array of that dtype: the memory layout is not a kind
     if s[0] in ("np", "a"):
         return s[0] + ":" + s[1]
     if s[0] in ("l", "t"):
         return s[0] + ":" + ",".join(sorted({kind(x) for x in leaves(_dec(s[1]))}))
     return s[0]
+
+
+def root_class(cls):
+    return cls.split(".layout-")[0]
 
 
 def is_mixed(specs):
@@ -528,7 +750,7 @@ DUMP = [] if "--dump" in sys.argv else None  # --dump <file>: every failing inpu
 
 def vid_of(clause, cls, specs):
     """<clause>.<class> for failures with an identified cause or in one-kind collections, <clause>.mixed.<class> otherwise."""
-    if cls in ROOT_CAUSE or not is_mixed(specs):
+    if root_class(cls) in ROOT_CAUSE or not is_mixed(specs):
         return clause + "." + cls
     return clause + ".mixed." + cls
 
@@ -658,7 +880,8 @@ def object_array(entries):
     return a
 
 
-def check_pack(specs, entries):
+def check_pack(specs, entries, exps=None):
+    exps = entries if exps is None else exps  # the expected side: layout specs are compared with their C-contiguous twin
     forms = []
     nonNone = [e for e in entries if e is not None]
     if any(e is None or isinstance(e, (dict, Flag)) for e in entries):
@@ -667,47 +890,59 @@ def check_pack(specs, entries):
         forms.append("jagged")
     if nonNone and len(nonNone) == len(entries) and not any(isinstance(e, (dict, Flag)) for e in entries):
         forms.append("typed")
+        if all(isinstance(e, np.ndarray) and e.ndim >= 1 and e.size > 1 for e in entries):
+            # the typed array handed to pack (and by pack straight to HDF5) in another memory layout
+            forms += ["typed-fortran", "typed-reversed"]
     for form in forms:
         inp = {"clause": "pack", "form": form, "entries": specs}
         try:
             if form == "object":
                 arr = object_array(entries)
-                expected = list(entries)
+                expected = list(exps)
             elif form == "jagged":
                 arr = JaggedArray(entries, NAME)
-                expected = list(entries)
+                expected = list(exps)
             else:
                 arr = np.array(entries)
                 if arr.dtype == object:
                     continue
-                expected = list(arr)  # clause is about pack/unpack: expected = content of the array handed to pack
+                expected = list(np.array(exps))  # clause is about pack/unpack: expected = content of the array handed to pack
+                if form == "typed-fortran":
+                    arr = np.asfortranarray(arr)
+                elif form == "typed-reversed":
+                    arr = np.ascontiguousarray(arr[::-1, ..., ::-1])[::-1, ..., ::-1]
         except Exception as e:  # numpy / JaggedArray refuse to build the container: rejected before pack
             hit(REJECT, "pack/%s container: %s" % (form, type(e).__name__))
             continue
+        if form.startswith("typed-"):  # self-check of this script: the same logical array, another layout
+            assert len(arr) == len(expected) and all(np.array_equal(x, y, equal_nan=x.dtype.kind == "f") for x, y in zip(arr, expected)), form
+            hit(LAYOUTS_HIT, "%s: %s" % (form, "C-contiguous" if arr.flags.c_contiguous else ("F-contiguous" if arr.flags.f_contiguous else "non-contiguous")))
         B.case(("pack", form, json.dumps(specs)), inp)
         st, res = pack_roundtrip(arr, len(entries))
         if st == "rejected":
             hit(REJECT, "pack/%s: %s" % (form, type(res).__name__))
             continue
+        circ = "" if form in ("object", "jagged", "typed") else "." + form  # the circumstance is part of the id
         if st == "read-error":
-            flag(vid_of("pack", "read-error", specs), "pack accepted the data but reading it back raised %s" % short(res, 160), inp)
+            flag(vid_of("pack", with_layout("read-error", first_layout_spec(specs)) + circ, specs), "pack accepted the data but reading it back raised %s" % short(res, 160), inp)
             continue
-        for cls, i in compare(expected, res).items():
-            flag(vid_of("pack", cls, specs), "unpack(pack(x)) differs from x at entry %d: wrote %s, read %s" % (i, short(expected, 200), short(res, 200)), inp)
+        for cls, i in compare(expected, res, specs).items():
+            flag(vid_of("pack", cls + circ, specs), "unpack(pack(x)) differs from x at entry %d: wrote %s, read %s" % (i, short(expected, 200), short(res, 200)), inp)
 
 
 # ----------------------------------------------------------------------------------------------------------------
 # clause nonsense: replaceNonesWithNonsense / replaceNonsenseWithNones inverse per dtype
 # ----------------------------------------------------------------------------------------------------------------
-def check_nonsense(specs, entries):
+def check_nonsense(specs, entries, exps=None):
+    exps = entries if exps is None else exps
     nonNone = [e for e in entries if e is not None]
     if any(isinstance(e, (dict, Flag)) for e in nonNone):
         return
     if any(is_seq(e) for e in nonNone):
         if not all(isinstance(e, np.ndarray) and e.size for e in nonNone) or len({e.shape for e in nonNone}) != 1 or len({e.dtype for e in nonNone}) != 1:
             return  # documented domain: None or equal, storable arrays
-    elif len({type(e) for e in nonNone}) > 1:
-        return  # one dtype per call (per-dtype inverse)
+    elif len({(type(e), getattr(e, "dtype", None)) for e in nonNone}) > 1:
+        return  # one dtype per call (per-dtype inverse); 0-d arrays: all ndarray, so the dtype decides
     inp = {"clause": "nonsense", "entries": specs}
     B.case(("nonsense", json.dumps(specs)), inp)
     data = object_array(entries)
@@ -720,25 +955,26 @@ def check_nonsense(specs, entries):
     if enc.dtype.kind == "O" or len(enc) != len(entries):
         flag("nonsense.values", "encoded array is not a typed array of the same length: %s" % short(enc), inp)
         return
-    bad = [i for i, e in enumerate(entries) if e is not None and entry_cmp(e, enc[i])[0] != "ok"]
+    bad = [i for i, e in enumerate(exps) if e is not None and entry_cmp(e, enc[i])[0] != "ok"]
     if bad:
-        flag("nonsense.values", "replaceNonesWithNonsense changed a non-None entry: %s -> %s" % (short(entries), short(enc)), inp)
+        flag("nonsense.values" + layout_suffix(specs[bad[0]]), "replaceNonesWithNonsense changed a non-None entry: %s -> %s" % (short(exps), short(enc)), inp)
         return
     try:
         dec = replaceNonsenseWithNones(enc, NAME)
     except Exception as e:
         flag("nonsense.roundtrip", "replaceNonsenseWithNones raised on the output of replaceNonesWithNonsense: %s" % short(e), inp)
         return
-    diff = compare(list(entries), list(dec))
+    diff = compare(list(exps), list(dec), specs)
     for cls, i in diff.items():
-        vid = {"unsigned-sentinel": "nonsense.unsigned-sentinel", "sentinel-collision": "nonsense.sentinel-collision"}.get(cls, "nonsense.roundtrip")  # one dtype per call: never mixed
+        vid = {"unsigned-sentinel": "nonsense.unsigned-sentinel", "sentinel-collision": "nonsense.sentinel-collision"}.get(cls, "nonsense.roundtrip" + layout_suffix(specs[i]))  # one dtype per call: never mixed
         flag(vid, "replaceNonsenseWithNones(replaceNonesWithNonsense(x)) != x (%s) at %d: x=%s encoded=%s decoded=%s" % (cls, i, short(entries, 150), short(enc, 150), short(dec, 150)), inp)
 
 
 # ----------------------------------------------------------------------------------------------------------------
 # clause jagged: offsets / shapes / nones bookkeeping and fromH5().unpack()
 # ----------------------------------------------------------------------------------------------------------------
-def check_jagged(specs, entries):
+def check_jagged(specs, entries, exps=None):
+    exps = entries if exps is None else exps
     nonNone = [e for e in entries if e is not None]
     if not nonNone or not all(is_seq(e) for e in nonNone):
         return  # documented domain of JaggedArray: a list of arrays / lists / tuples (and None)
@@ -766,19 +1002,28 @@ def check_jagged(specs, entries):
             flag("jagged.shapes", "shapes=%s expected %s" % (got, shp), inp)
     elif [int(np.prod(s)) for s in got] != sizes:
         flag("jagged.shapes", "shape products %s != sizes %s" % (got, sizes), inp)
-    flat = [lf for _, e in kept for lf in leaves(e)]
+    flat = [lf for i, _ in kept for lf in leaves(exps[i])]  # entry after entry, each in logical (first index slowest) order
     flatCls = None
     if len(flat) == len(ja.flattenedArray):
-        w = worst([leaf_cmp(x, y) for x, y in zip(flat, ja.flattenedArray.tolist())])
+        got = ja.flattenedArray.tolist()
+        w = worst([leaf_cmp(x, y) for x, y in zip(flat, got)])
         if w[0] in ("none", "value"):  # a changed value in the flat array; promotion to one dtype with equal values is not reported here
             flatCls = w[1]
-            flag(vid_of("jagged", "flat." + w[1], specs), "flattenedArray is not the concatenation of the entries (%s): %s vs %s" % (w[1], short(ja.flattenedArray), short(flat)), inp)
+            # the first entry whose own stretch of the flat array is wrong: are its scalars all there, in another order?
+            for k, (i, _) in enumerate(kept):
+                seg = slice(expOffsets[k], expOffsets[k] + sizes[k])
+                ws = worst([leaf_cmp(x, y) for x, y in zip(flat[seg], got[seg])])
+                if ws[0] in ("none", "value"):
+                    if ws[1] == w[1]:
+                        flatCls = with_layout("elements-permuted" if permuted(flat[seg], got[seg]) else w[1], specs[i])
+                    break
+            flag(vid_of("jagged", "flat." + flatCls, specs), "flattenedArray is not the concatenation of the entries in logical order (%s): %s vs %s" % (flatCls, short(ja.flattenedArray), short(flat)), inp)
     try:
         back = JaggedArray.fromH5(ja.flattenedArray, ja.offsets, ja.shapes, ja.nones, ja.dtype, NAME).unpack()
     except Exception as e:
-        flag("jagged.roundtrip", "fromH5(...).unpack() raised %s" % short(e), inp)
+        flag("jagged.roundtrip" + layout_suffix(first_layout_spec(specs)), "fromH5(...).unpack() raised %s" % short(e), inp)
         return
-    diff = compare(list(entries), list(back))
+    diff = compare(list(exps), list(back), specs)
     diff.pop(flatCls, None)  # already reported on the flat array: unpack() only hands that content back
     diff.pop("kind-promotion", None)  # one flat array has one dtype: promotion is reported by the pack / db.params clauses
     if "shape.inner-ragged-flattened" in diff:
@@ -811,8 +1056,22 @@ class C05Parent(composites.Composite):
     pDefs = _pdefs(["c05Int", "c05Float", "c05Bool", "c05Str"])
 
 
+# parameters whose per-object values are arrays in other memory layouts (equal shapes / ragged with an unset object / equal
+# shapes with unset objects / 3-d / int): on the parent/child pair and through writeToDB/load
+LAYOUT_PARAMS = {
+    "c05ArrLayouts": [["v", "T", "float64", [[1.0, 2.0, 3.0], [4.0, 5.0, 6.0]]], ["v", "F", "float64", [[7.0, 8.0, 9.0], [10.0, 11.0, 12.0]]],
+                      ["v", "strided", "float64", [[-1.0, -2.0, -3.0], [-4.0, -5.0, -6.0]]], ["v", "neg", "float64", [[0.5, 1.5, 2.5], [3.5, 4.5, 5.5]]]],
+    "c05JagLayouts": [["v", "T", "float64", [[1.0, 4.0], [2.0, 5.0], [3.0, 6.0]]], ["v", "F", "float64", [[10.0, 20.0], [30.0, 40.0]]], None,
+                      ["v", "col", "float64", [[7.0, 8.0, 9.0]]]],
+    "c05ArrLayoutsNone": [["v", "F", "int64", [[1, 2], [3, 4], [5, 6]]], None, ["v", "T", "int64", [[7, 8], [9, 10], [11, 12]]], None],
+    "c05Jag3Layouts": [["v", "perm201", "float64", [[[1.0, 2.0], [3.0, 4.0], [5.0, 6.0]], [[7.0, 8.0], [9.0, 10.0], [11.0, 12.0]]]],
+                       ["v", "T", "float64", [[[1.0, 2.0], [3.0, 4.0]], [[5.0, 6.0], [7.0, 8.0]]]], ["v", "F", "float64", [[[1.0, 2.0, 3.0]]]],
+                       ["v", "perm021", "float64", [[[1.0, 2.0]], [[3.0, 4.0]]]]],
+}
+
+
 class C05Child(C05Parent):
-    pDefs = _pdefs(["c05Arr", "c05Arr2", "c05Jag", "c05List", "c05Dict", "c05IntNone", "c05FloatNone", "c05ArrNone", "c05AllNone"])
+    pDefs = _pdefs(["c05Arr", "c05Arr2", "c05Jag", "c05List", "c05Dict", "c05IntNone", "c05FloatNone", "c05ArrNone", "c05AllNone"] + sorted(LAYOUT_PARAMS))
 
 
 DB = Database("c05-unused.h5", "w")  # never opened: _writeParams only needs the instance
@@ -846,7 +1105,8 @@ def db_roundtrip(cls, assign, n):
         H.drop(g)
 
 
-def check_db(specs, entries, pname=NAME, cls=C05Obj):
+def check_db(specs, entries, pname=NAME, cls=C05Obj, exps=None):
+    exps = entries if exps is None else exps
     inp = {"clause": "db.params", "param": pname, "entries": specs}
     B.case(("db", pname, json.dumps(specs)), inp)
     st, res = db_roundtrip(cls, {pname: entries}, len(entries))
@@ -854,16 +1114,44 @@ def check_db(specs, entries, pname=NAME, cls=C05Obj):
         hit(REJECT, "db.params: %s" % type(res).__name__)
         return
     if st == "read-error":
-        cls = "jagged-entry-skipped" if has_skippable_entry(entries) else ("entries-dropped" if "unmatched sizes" in str(res) else "read-error")
+        cls = "jagged-entry-skipped" if has_skippable_entry(entries) else ("entries-dropped" if "unmatched sizes" in str(res) else with_layout("read-error", first_layout_spec(specs)))
         flag(vid_of("db.params", cls, specs), "_writeParams accepted the values %s but _readParams raised %s" % (short(entries, 150), short(res, 200)), inp)
         return
-    for c, i in compare(list(entries), res[pname]).items():
-        flag(vid_of("db.params", c, specs), "value read by _readParams differs from the value written by _writeParams at object %d: wrote %s, read %s" % (i, short(entries, 200), short(res[pname], 200)), inp)
+    for c, i in compare(list(exps), res[pname], specs).items():
+        flag(vid_of("db.params", c, specs), "value read by _readParams differs from the value written by _writeParams at object %d: wrote %s, read %s" % (i, short(exps, 200), short(res[pname], 200)), inp)
+
+
+def layout_values():
+    return {p: [build(sp) for sp in specs] for p, specs in LAYOUT_PARAMS.items()}
+
+
+def expected_values(assign):
+    """What must be read back: the values assigned; for the layout parameters their C-contiguous twins."""
+    return {p: ([twin(sp, None) for sp in LAYOUT_PARAMS[p]] if p in LAYOUT_PARAMS else vals) for p, vals in assign.items()}
+
+
+def flag_params(base, label, assign, got):
+    """Compare parameter by parameter; the old parameters keep the one id `base`, a layout parameter names class + layout."""
+    exp = expected_values(assign)
+    for pname, vals in assign.items():
+        d = compare(exp[pname], got[pname], LAYOUT_PARAMS.get(pname))
+        if not d:
+            continue
+        what = "parameter %s: wrote %s, %s %s (%s)" % (pname, short(exp[pname], 150), label, short(got[pname], 150), d)
+        if pname in LAYOUT_PARAMS:
+            for cls in d:
+                flag("%s.%s" % (base, cls), what, {"clause": base_clause(base), "param": pname, "entries": LAYOUT_PARAMS[pname]})
+        else:
+            flag(base, what, {"clause": base_clause(base), "param": pname})
+
+
+def base_clause(base):
+    return {"db.params.hierarchy": "hierarchy", "db.load": "full-db"}[base]
 
 
 def each_kind_values():
     a = np.array
-    return {
+    return dict(layout_values(), **{
         "c05Int": [1, -2, 2**40, 0],
         "c05Float": [0.5, -1e300, float("inf"), 5e-324],
         "c05Bool": [True, False, False, True],
@@ -878,7 +1166,7 @@ def each_kind_values():
         "c05ArrNone": [a([1.0, 2.0]), None, a([3.0, 4.0]), None],
         "c05AllNone": [None, None, None, None],
         "flags": [Flags.FUEL, Flags.FUEL | Flags.INNER, Flags(0), Flags.CLAD | Flags.DEPLETABLE | Flags.MOVEABLE],
-    }
+    })
 
 
 def check_hierarchy():
@@ -890,10 +1178,7 @@ def check_hierarchy():
     if st != "ok":
         flag("db.params.hierarchy", "one parameter of each (representable) kind on a parent/child class pair: %s %s" % (st, short(res)), {"clause": "hierarchy"})
         return
-    for pname, vals in assign.items():
-        d = compare(vals, res[pname])
-        if d:
-            flag("db.params.hierarchy", "parameter %s: wrote %s, read %s (%s)" % (pname, short(vals, 150), short(res[pname], 150), d), {"clause": "hierarchy", "param": pname})
+    flag_params("db.params.hierarchy", "read", assign, res)
 
 
 def check_full_db():
@@ -924,10 +1209,7 @@ def check_full_db():
     if [str(k.name) for k in kids2] != [k.name for k in kids]:
         flag("db.load", "children after load: %s" % [k.name for k in kids2], {"clause": "full-db"})
         return
-    for pname, vals in assign.items():
-        d = compare(vals, [k.p[pname] for k in kids2])
-        if d:
-            flag("db.load", "parameter %s: wrote %s, loaded %s (%s)" % (pname, short(vals, 150), short([k.p[pname] for k in kids2], 150), d), {"clause": "full-db", "param": pname})
+    flag_params("db.load", "loaded", assign, {pname: [k.p[pname] for k in kids2] for pname in assign})
 
 
 def check_spill():
@@ -1024,17 +1306,18 @@ def cov_report():
 # ----------------------------------------------------------------------------------------------------------------
 def run_one(specs, clauses=("pack", "nonsense", "jagged", "db.params"), param=NAME):
     entries = [build(s) for s in specs]
+    exps = [twin(s, e) for s, e in zip(specs, entries)]
     if "pack" in clauses:
-        check_pack(specs, entries)
+        check_pack(specs, entries, exps)
     if "nonsense" in clauses:
-        check_nonsense(specs, entries)
+        check_nonsense(specs, entries, exps)
     if "jagged" in clauses:
-        check_jagged(specs, entries)
+        check_jagged(specs, entries, exps)
     if "db.params" in clauses:
         if param == "flags":
             check_db(specs, entries, "flags")
         else:
-            check_db(specs, entries)
+            check_db(specs, entries, exps=exps)
 
 
 def main():
@@ -1072,8 +1355,10 @@ def main():
         if vid.startswith("pack.") and isinstance(inp.get("entries"), list):
             # is the smallest pack-level failure also reachable through the real writer?
             ents = [build(s) for s in inp["entries"]]
+            exps = [twin(s, e) for s, e in zip(inp["entries"], ents)]
             st, res = db_roundtrip(C05Obj, {NAME: ents}, len(ents))
-            via = "rejected at write time" if st == "rejected" else ("reading raises" if st == "read-error" else ("differs: " + ",".join(sorted(compare(ents, res[NAME]))) if compare(ents, res[NAME]) else "round-trips"))
+            dd = compare(exps, res[NAME], inp["entries"]) if st == "ok" else None
+            via = "rejected at write time" if st == "rejected" else ("reading raises" if st == "read-error" else ("differs: " + ",".join(sorted(dd)) if dd else "round-trips"))
             what += "  [same collection through _writeParams/_readParams: %s]" % via
             VIOL[vid] = (None, what, inp)
 
@@ -1081,12 +1366,14 @@ def main():
         B.violations.append({"id": vid, "what": what + "  [%d failing inputs with this id]" % VCOUNT[vid], "input": inp})
     B.extra["violation_counts"] = dict(sorted(VCOUNT.items()))
     B.extra["reachable_through_writeParams"] = {k: ("db.params." + k[len("pack."):]) in VCOUNT for k in sorted(VCOUNT) if k.startswith("pack.")}
+    B.extra["memory_layouts"] = LAYOUT_DOC
     B.extra["strategies_hit"] = dict(sorted(STRAT.items()))
     B.extra["strategies_unreachable"] = ["final-raise (the two raise statements at the end of packSpecialData are dead code: the preceding `if any(isinstance(d, (tuple, list, np.ndarray)) ...)` is always true when reached)"] if "pack:final-raise" not in STRAT else []
     B.extra["db_routes"] = dict(sorted(ROUTES.items()))
     B.extra["rejected_at_write_time"] = dict(sorted(REJECT.items()))
     B.extra["tolerated_normalisations"] = dict(sorted(TOL.items()))
     B.extra["collection_kinds"] = len(kinds_seen)
+    B.extra["memory_layouts_hit"] = dict(sorted(LAYOUTS_HIT.items()))
     if covered:
         B.extra["line_coverage"] = cov_report()
     if DUMP is not None:
